@@ -17,9 +17,12 @@ RULE = (
     "Metamorphic: a generated C01/C02 case (tool, data, parameters, optionally one planned fault at a "
     "generated use) is run through the library once with all-synchronous arguments (list or one-shot "
     "iterator sources, plain def callables) and then under 6 generated flavour assignments - each iterable "
-    "in {list, __getitem__ sequence, sync iterator, async generator, class-based async iterator, class "
+    "in {list, __getitem__ sequence, sync iterator, re-iterable sync / async iterable, async generator, class-based "
+    "async iterator (also behind a delegating proxy), class "
     "whose __anext__ returns a plain awaitable}, each callable in {def, async def, partial(async def), "
-    "callable object returning a coroutine}; items (identity), return value and raised exception "
+    "callable object returning a coroutine / a plain awaitable object, falsy callable object, callable objects with "
+    "value equality (sync and async __call__) or without hash, generator-based coroutine function (types.coroutine)}; "
+    "a callable may return a CLASS whose instances are awaitable; items (identity), return value and raised exception "
     "(planned object identity / type) must not change. Second oracle: the object each library callable "
     "returns before awaiting/iterating is an awaitable, async iterator or async context manager for every "
     "flavour (plus a fixed surface list: sync, apply, any_iter, await_each, borrow, scoped_iter, closing, "
@@ -33,7 +36,7 @@ ASSUMPTIONS = [
 ]
 
 SRC_FL = ["list", "seq", "iter", "agen", "aclass", "aplain", "tuple", "tuplesub", "aeager", "reiter", "areiter", "aproxy"]
-FN_FL = ["def", "async", "partial", "obj", "objaw", "falsyobj", "eqobj", "unhashobj", "aeqobj"]
+FN_FL = ["def", "async", "partial", "obj", "objaw", "falsyobj", "eqobj", "unhashobj", "aeqobj", "gencoro"]
 ASYNC_SRC = {"agen", "aclass", "aplain", "aeager", "areiter", "aproxy"}
 ALL = ITER_TOOLS + AGG_TOOLS
 
@@ -263,7 +266,9 @@ SYNC_TO_ASYNC = {"scm": "acm", "push-sync": "push-async", "callback-sync": "call
 def stack_cases(draw):
     from . import c14
 
-    space = [e for e in c14.entry_space() if e[0] in SYNC_TO_ASYNC]
+    # (a coroutine function cannot raise StopIteration - its frame turns it into RuntimeError, PEP 479 - so that
+    # behaviour has no awaitable-returning equivalent)
+    space = [e for e in c14.entry_space() if e[0] in SYNC_TO_ASYNC and e[1] != "raise-stop"]
     entries = draw(st.lists(st.sampled_from(space), min_size=1, max_size=4))
     flips = [draw(st.lists(st.booleans(), min_size=len(entries), max_size=len(entries))) for _ in range(4)]
     return {"entries": [list(e) for e in entries], "block": draw(st.sampled_from(["normal", "raises"])),
